@@ -47,6 +47,7 @@ static NEGATIVE: AtomicU64 = AtomicU64::new(0);
 static DOC_DEVIATION: AtomicU64 = AtomicU64::new(0);
 static GIT_CALLS: AtomicU64 = AtomicU64::new(0);
 static BELOW_EXCLUDED: AtomicU64 = AtomicU64::new(0);
+static REINCLUDED: AtomicU64 = AtomicU64::new(0);
 
 pub fn write(path: &Path, data: &[u8]) {
     if let Some(p) = path.parent() {
@@ -230,19 +231,21 @@ fn eval(c: &IgnCase) -> Verdict {
             ancestors.sort_by_key(|j| queries[*j].0.len());
             let outermost_excluded = ancestors.iter().copied().find(|j| git[*j].as_ref().map_or(false, |h| !h.negative));
             let below_excluded_parent = outermost_excluded.map_or(false, |e| gix[e] == git[e] && *g == git[e]);
+            // one class for both faces of the same root cause: re-included (decision differs) / deeper pattern reported (same decision)
             let class = if below_excluded_parent {
-                if x_ex {
-                    "deeper-match-below-excluded-parent"
-                } else {
-                    "reincluded-below-excluded-parent"
-                }
+                "innermost-match-below-excluded-parent"
             } else if g_ex != x_ex {
                 "decision"
             } else {
                 "pattern"
             };
+            let face = match (below_excluded_parent, x_ex) {
+                (true, false) => " [re-included below an excluded parent]",
+                (true, true) => " [deeper pattern reported below an excluded parent]",
+                _ => "",
+            };
             let message = format!(
-                "{class}: {kind} {p:?} ({order} traversal) with {}: git check-ignore says {} ({}), gitoxide says {} ({})",
+                "{class}:{face} {kind} {p:?} ({order} traversal) with {}: git check-ignore says {} ({}), gitoxide says {} ({})",
                 cfg(),
                 if g_ex { "ignored" } else { "not ignored" },
                 describe(g),
@@ -253,6 +256,9 @@ fn eval(c: &IgnCase) -> Verdict {
                 // keep looking: any other kind of disagreement in this configuration must not be hidden by the known shape
                 known_shape.get_or_insert(message);
                 BELOW_EXCLUDED.fetch_add(1, Ordering::Relaxed);
+                if !x_ex {
+                    REINCLUDED.fetch_add(1, Ordering::Relaxed);
+                }
                 continue;
             }
             return Err(message);
@@ -305,7 +311,7 @@ pub fn run(run: &'static Run) {
          (gix-worktree's own baseline test tolerates exactly this); the ignored/not-ignored decision is identical there",
     );
     run.assume(
-        "open known findings `reincluded-below-excluded-parent` / `deeper-match-below-excluded-parent`: gitoxide lets the innermost matched parent directory (or the path itself \
+        "open known finding `innermost-match-below-excluded-parent`: gitoxide lets the innermost matched parent directory (or the path itself \
          below a re-included one) decide, git the outermost excluded one (.gitignore `a`,`!b`, path a/b/b: git ignored by line 1, gitoxide not ignored). gix-dir relies on this \
          to find precious/re-included files inside ignored directories; a repair was reverted (9f28a8ff9). Recognised structurally (git reports an ancestor directory as excluded, \
          gitoxide agrees about that directory, git's answer for the path is that directory's answer); every other disagreement in the same configuration is still reported first",
@@ -335,6 +341,7 @@ pub fn run(run: &'static Run) {
         run.cov("documented_deviation_ancestor_negative", DOC_DEVIATION.load(Ordering::Relaxed));
         run.cov("oracle_calls_git", GIT_CALLS.load(Ordering::Relaxed));
         run.cov("answers_below_excluded_parent_differing", BELOW_EXCLUDED.load(Ordering::Relaxed));
+        run.cov("answers_below_excluded_parent_with_different_decision", REINCLUDED.load(Ordering::Relaxed));
         run.require("some paths were excluded", EXCLUDED.load(Ordering::Relaxed) > 100);
         run.require("some negative patterns were reported", NEGATIVE.load(Ordering::Relaxed) > 10);
     }
